@@ -789,3 +789,26 @@ Lemma kind_preservation_unrestricted_false_l :
   exists k m, (k < nkinds)%nat /\ res_kinds (conv_platform (b_new k m)) <> Some [k] /\
               res_kinds (conv_fs (b_new k m)) <> Some [k].
 Proof. exists ErrInvalid, (s2b "links are not supported here"). vm_compute. repeat split; try lia; discriminate. Qed.
+
+(* ================= the order of the rules; composite backend values ================= *)
+
+Lemma rule_order_l :
+  rule_kinds platform_cases = expected_order_platform /\ rule_kinds fs_cases = expected_order_fs /\
+  rule_kinds io_cases = expected_order_io /\ rule_kinds proc_cases = expected_order_proc.
+Proof. vm_compute. repeat split; reflexivity. Qed.
+
+Definition gives_timeout (e : berr) : bool := opt_nats_eq (res_kinds (conv_fs e)) (Some [ErrTimeout]).
+(* platform.ConvertError, which runs first, does not re-read the error as "unsupported" *)
+Definition platform_neutral (e : berr) : bool := negb (existsb (b_corr e) (case_strings platform_cases)).
+
+(* a deadline wins: for every base condition c that the filesystem converter maps to timeout and every other base
+   condition d (neither spelling "not supported"), a value carrying BOTH - joined in either order, also inside a
+   *PathError - is timeout *)
+Definition deadline_wins_cert : bool :=
+  forallb (fun c => implb (gives_timeout c && platform_neutral c)
+    (forallb (fun d => implb (platform_neutral d)
+       (gives_timeout (BJoin c d) && gives_timeout (BJoin d c) && gives_timeout (BPath true [99] (BJoin d c))))
+     base_conds)) base_conds.
+
+Lemma deadline_wins_l : deadline_wins_cert = true.
+Proof. vm_compute. reflexivity. Qed.
